@@ -120,6 +120,14 @@ Theorem C13_reconnects_on_timeout : forall I T ds s me st, 0 < I -> fresh st me 
   (forall j, j <> me -> st' j = st j) /\ loop_react me st' = LRedial.
 Proof. exact reconnects_on_timeout. Qed.
 
+(* "closes that connection", whatever kind of silence: the reaction consists of SetErrorOnce and
+   Close only, it writes no packet, so it completes (with the state of C13_reconnects_on_timeout)
+   whether or not the peer still takes bytes *)
+Theorem C13_timeout_reaction_independent_of_peer : forall accepts me o late disc st,
+  run_ops accepts me (react_ops o late disc) st = Some (ka_react me o late disc st) /\
+  existsb op_is_write (react_ops o late disc) = false.
+Proof. exact reaction_independent_of_peer. Qed.
+
 (* a keep-alive whose context was cancelled (the connection ended for another reason) stores
    nothing and closes nothing, on any client; nor does a result that arrives after the loop
    cancelled it or while a Disconnect is in progress *)
@@ -232,3 +240,4 @@ Print Assumptions C13_reconnect_interval_then_timeout.
 Print Assumptions C13_ping_period_independent_of_delay.
 Print Assumptions C13_option_defaults.
 Print Assumptions C13_timeout_defaults_to_interval.
+Print Assumptions C13_timeout_reaction_independent_of_peer.
